@@ -224,20 +224,23 @@ func (a Float) M__itruediv__(other Object) (Object, error) {
 
 func (a Float) M__floordiv__(other Object) (Object, error) {
 	if b, ok := convertToFloat(other); ok {
-		if b == 0 {
-			return nil, floatDivisionByZero
+		// the quotient of floatDivMod: floor(a/b) is wrong when a/b rounds to zero or up to an integer
+		q, _, err := floatDivMod(a, b)
+		if err != nil {
+			return nil, err
 		}
-		return Float(math.Floor(float64(a / b))), nil
+		return q, nil
 	}
 	return NotImplemented, nil
 }
 
 func (a Float) M__rfloordiv__(other Object) (Object, error) {
 	if b, ok := convertToFloat(other); ok {
-		if a == 0 {
-			return nil, floatDivisionByZero
+		q, _, err := floatDivMod(b, a)
+		if err != nil {
+			return nil, err
 		}
-		return Float(math.Floor(float64(b / a))), nil
+		return q, nil
 	}
 	return NotImplemented, nil
 }
